@@ -114,7 +114,14 @@ func permutations(n int) [][]int {
 // field-less depends on the order: F all with fields, R all field-less, E
 // even nodes field-less (so children are derived right after a field-less log
 // and after a log with fields), L odd nodes field-less, perm: by position.
-func schedByName(steps []step, name string) (sched, bool) {
+//
+// A name with the suffix ":2r" stops after the second round (used for the
+// deepest space of the quick tier).
+func schedByName(steps []step, fullName string) (sched, bool) {
+	name, rounds := fullName, 3
+	if strings.HasSuffix(name, ":2r") {
+		name, rounds = name[:len(name)-3], 2
+	}
 	n := len(steps) + 1
 	var ev []event
 	firstCS := make([]bool, n)
@@ -128,7 +135,7 @@ func schedByName(steps []step, name string) (sched, bool) {
 		ev = append(ev, event{node: j, round: 1, cs: cs})
 	}
 	later := func(reverse bool) {
-		for round := 2; round <= 3; round++ {
+		for round := 2; round <= rounds; round++ {
 			for k := 0; k < n; k++ {
 				j := k
 				if reverse {
@@ -192,7 +199,7 @@ func schedByName(steps []step, name string) (sched, bool) {
 	default:
 		return sched{}, false
 	}
-	return sched{name, ev}, true
+	return sched{fullName, ev}, true
 }
 
 var permNames = func() [4][]string {
@@ -350,6 +357,11 @@ func main() {
 	if run.Thorough() {
 		dynMaxDepth = 4
 	}
+	// every node logs three times; in the quick tier the depth-4 space stops after the second round
+	threeRoundDepth := 3
+	if run.Thorough() {
+		threeRoundDepth = 99
+	}
 	type item struct {
 		sp     int
 		lo, hi int64
@@ -410,6 +422,12 @@ func main() {
 				nnon++
 			}
 			names := scheduleNames(len(steps) + 1)
+			if sp.depth > threeRoundDepth {
+				names = append([]string(nil), names...)
+				for k := range names {
+					names[k] += ":2r"
+				}
+			}
 			scheds := make([]sched, len(names))
 			for k, sn := range names {
 				scheds[k], _ = schedByName(steps, sn)
@@ -469,7 +487,7 @@ func main() {
 		"every entry is logged at Info (enabled in every family); the sampler's budget (first=2^30 per tick) is never exhausted",
 		"evaluation time/count of marshalers is demanded only where every serialising core is a byte encoder (json, console, sampler, hooked, increase-level, lazy): With = once, at derivation; WithLazy = once, at the first log through the logger or a descendant or the first With/WithOptions(Fields) chained on it. The observer keeps the Field unevaluated: there only field identity (Field.Equals + same marshaler pointer) is compared; in tee(json,observer) the JSON branch's value is compared but not the call count",
 		"Named, Sugar, Desugar and WithLazy on a lazy logger are not a 'use' (documented: evaluated only if chained with With or written to)",
-		"use orders: every permutation of first uses for <=3 nodes, else forward (F) and reverse (R) after all derivations; E = each node used before anything is derived from it; L = parent first used after its first child and before later children; every node then logs a second and a third time; per node the calls alternate between carrying call-site fields and being field-less (F starts with fields, R field-less, E/L/perm mixed by node index/position), so both successions field-less->with-fields and with-fields->field-less occur for every node, and in E children are derived right after a parent's field-less log (even parents) and after a log with fields (odd parents)",
+		"use orders: every permutation of first uses for <=3 nodes, else forward (F) and reverse (R) after all derivations; E = each node used before anything is derived from it; L = parent first used after its first child and before later children; every node then logs a second and a third time (quick tier, depth-4 space: a second time only - there F gives with-fields->field-less, R field-less->with-fields, E/L both by node parity); per node the calls alternate between carrying call-site fields and being field-less (F starts with fields, R field-less, E/L/perm mixed by node index/position), so both successions field-less->with-fields and with-fields->field-less occur for every node, and in E children are derived right after a parent's field-less log (even parents) and after a log with fields (odd parents)",
 	}
 	run.Finish(map[string]any{
 		"states":                             len(states),
@@ -485,6 +503,7 @@ func main() {
 		"symbols_full":                       symNames,
 		"core_families":                      famNames[:],
 		"dynamic_level_families_up_to_depth": dynMaxDepth,
+		"three_log_rounds_up_to_depth":       threeRoundDepth,
 		"derivation_steps_executed":          derives,
 		"log_calls_executed":                 logCalls,
 		"lines_equal_to_reference_rendering": fast,
